@@ -675,8 +675,14 @@ class Planner:
             # a long-lived module: one client first makes hundreds of ordinary calls on the hot module
             hm = self.infos[hot]
             if getattr(hm, 'owner', 0) == 0 and hm.texts and not getattr(hm, 'builtin', None):
-                ts = [hm.wire(t) for t in wr.sample(hm.texts, min(len(hm.texts), wr.choice([1, 1, 2])))]
-                clients[0].insert(0, {'op': 'burst', 'mod': hot, 'texts': ts, 'n': wr.choice([300, 1200, 2500])})
+                cand = []
+                for t in hm.texts:
+                    rec = self.ref({'op': 'parse', 'mod': hot, 'entry': 'parse', 'text': hm.wire(t), 'pos': 0, 'full': True})
+                    if rec['out'].get('err') != 'nontermination' and rec['steps'] < 15_000:
+                        cand.append(t)
+                if cand:
+                    ts = [hm.wire(t) for t in wr.sample(cand, min(len(cand), wr.choice([1, 1, 2])))]
+                    clients[0].insert(0, {'op': 'burst', 'mod': hot, 'texts': ts, 'n': wr.choice([300, 1200, 2500])})
         if n_clients >= 2 and wr.random() < 0.3:
             # "the same request, twice, at the same time": the other clients start with the very operation
             # the first client starts with -- the call that is let into a window then runs through the
